@@ -102,6 +102,11 @@ Theorem C10_pid_window : forall acts ls a,
   exists x, nth_error (actors s) a = Some x /\ a_remote x = false /\ holds_pid (a_pc x) = true.
 Proof. intros acts ls a s. apply (iP _ (reach_inv acts ls)). Qed.
 
+(* (6) the executable property accepts every history of the model: it cannot raise a false
+   alarm on model-conforming behaviour, whatever the interleaving *)
+Theorem C10_oracle_sound : forall acts ls, check_C10 (history false ls (init acts)) = true.
+Proof. exact oracle_sound. Qed.
+
 (* ---- statement pins ---- *)
 Check (C10_one_winner : forall acts ls a b x y n,
   let s := run false ls (init acts) in
@@ -158,7 +163,8 @@ Example ex_oracle_rejects :
   check_C10 [ESpawn 0 (Some 7%N) false true; ESpawn 1 (Some 7%N) false true] = false
   /\ check_C10 [ESpawn 0 (Some 7%N) false true; EBegin 0; EWait 0; EWhere 7%N (Some (0, SStopped))] = false
   /\ check_C10 [ESpawn 0 (Some 7%N) false true; EBegin 0; EWait 0; ESpawn 1 (Some 7%N) false false] = false
-  /\ check_C10 [ESpawn 0 (Some 7%N) false true; EPid 0; EWherePid 0 None] = false.
+  /\ check_C10 [ESpawn 0 (Some 7%N) false true; EPid 0; EWherePid 0 None] = false
+  /\ check_C10 [ESpawn 0 (Some 7%N) false true; EBegin 0; EWhere 7%N (Some (0, SStopped))] = false.
 Proof. repeat split; vm_compute; reflexivity. Qed.
 
 Print Assumptions C10_unique.
@@ -171,3 +177,4 @@ Print Assumptions C10_lookup_never_stale.
 Print Assumptions C10_release_frees.
 Print Assumptions C10_registrable_after_wait.
 Print Assumptions C10_pid_window.
+Print Assumptions C10_oracle_sound.
